@@ -12,17 +12,20 @@ from sim.harness import draw_knobs
 
 ID = "C01"
 LEVEL = "exploration"
-RUNS = {"quick": 4000, "thorough": 60000}
+RUNS = {"quick": 4000, "thorough": 90000}
 WALL_CAP = {"quick": 150, "thorough": 3000}
 RULE = ("one case = one generated handler program (2-6 event names, 3-10 handler callables with scripts that "
         "post/post_boolean/post_relay with or without completion callback, add/replace/remove handlers by "
-        "key/event/method, return False/dict; priorities distinct, tied or flat; registered kwargs colliding "
-        "with posted ones; conditions) with a random registration history and 3-12 roots posted from driver, "
-        "plain loop timer, DelayManager callback, untimed/timed switch handler, asyncio task, queue-event "
-        "handler, handlers (depth <= 5) and completion callbacks, several roots at one instant, executed on the "
-        "real EventManager under a seeded scheduler (stalls, tie permutations); non-trivial = reached at least "
-        "one reach probe; distinct = distinct sequence of observed kinds (handler/callback/context)")
-PROBES = ["delivery", "callback", "episode_boundary", "root_from_boot", "root_from_driver", "root_from_at", "root_from_delay", "root_from_switch", "root_from_tswitch",
+        "key/event/method, defer a post through a delay, flip a switch, return False/dict; priorities distinct, "
+        "tied or flat; registered kwargs colliding with posted ones; conditions) run in 1-3 episodes on one booted "
+        "machine (registration history carries over), each with a random registration history and 3-12 roots posted "
+        "from MPF's boot sequence, the driver, a plain loop timer, a DelayManager callback, an untimed/timed switch "
+        "handler, an asyncio task, a queue-event handler, handlers (depth <= 5) and completion callbacks, several "
+        "roots at one instant, executed on the real EventManager under a seeded scheduler (stalls, tie "
+        "permutations); non-trivial = reached at least one reach probe; distinct = distinct sequence of observed "
+        "kinds (handler/callback/context/post/registry op)")
+PROBES = ["delivery", "callback", "episode_boundary", "root_from_boot", "root_from_driver", "root_from_at",
+          "root_from_delay", "root_from_switch", "root_from_tswitch",
           "root_from_task", "root_from_qevent", "post_in_handler", "post_in_callback", "post_in_nested_switch",
           "depth_3", "depth_5", "roots_waiting_together", "tie_priority", "cond_skip", "cond_pass", "boolean_stop",
           "relay_merge", "kw_override", "bare_post", "callback_after_grandchildren", "callback_no_handlers",
@@ -63,7 +66,6 @@ class _Gen:
     def __init__(self, ch):
         self.ch = ch
         self.oid = 0
-        self.prio_pool = []
 
     def next_oid(self):
         self.oid += 1
@@ -466,10 +468,11 @@ def execute(ctx, plan):
             before = len([r for r in model.registry.get(ev, []) if r.hid == op["hid"]])
             kw = op["kw"]
             # keep registrations distinguishable (see unique_kw): only replace when the new registration ends up as
-            # the only live one of this (callable, event) pair and no waiting post can still see an old one (R3)
+            # the only live one without 'u' of this (callable, event) pair and no waiting post can still see an
+            # old one (R3)
             same = [r for r in model.registry.get(ev, []) if r.hid == op["hid"]]
-            if any(kw and r.kw != kw for r in same):
-                return
+            if any(kw and r.kw != kw and "u" not in r.kw for r in same):
+                return      # (survivors that carry a 'u' stay distinguishable from the new registration)
             waiting = list(model._waiting_posts(ev))
             if waiting and (not model.in_handler() or any(r.hid == op["hid"] for p in waiting for r in p.extra)):
                 return
